@@ -5,7 +5,7 @@ A pattern that no longer matches is an error: the tie between model and code is 
 import re, sys, os
 
 REPO = os.environ.get("VERIF_REPO", "/repo")
-OUT = "/verif/lean/RenetVerif/Generated/Consts.lean"
+OUT = os.environ.get("VERIF_HOME", "/verif") + "/lean/RenetVerif/Generated/Consts.lean"
 
 def src(p):
     return open(os.path.join(REPO, p)).read()
